@@ -18,9 +18,8 @@ package xmpp
 //@ assume-typeinv *deferWriter: self.s != nil
 
 // negotiateSession panics by design when called with a nil negotiator
-// (documented API misuse, not reachable from peer input).
-//@ func negotiateSession
-//@   maypanic
+// (documented API misuse, not reachable from peer input); see its contract
+// in the negotiation section below.
 
 // A nil error from the IQ iterators comes with a non-nil iterator and a
 // non-nil payload start element.
@@ -337,21 +336,21 @@ package xmpp
 // namespace whose prerequisites hold; a mandatory entry makes the list
 // mandatory; an empty advertisement has an empty cache.
 //@ func readStreamFeatures
-//@   ensures[C01,C02,C04] unchanged(s.state) && unchanged(s.negotiated) && unchanged(s.in.d) && unchanged(features)
+//@   ensures[C01,C02,C04] unchanged(s.state) && unchanged(s.negotiated) && unchanged(s.in.d) && unchanged(features) && s.features == old(s.features)
 //@   ensures[C01,C04] result1 == nil ==> result0 != nil && result0.cache != nil && result0.total >= 0
 //@   ensures[C01] result1 == nil ==> forall k string :: has(result0.cache, k) ==> cached(result0.cache[k], k, s.state) && (result0.cache[k].req ==> result0.req) && result0.total > 0 && result0.cache[k].feature.Name.Local != ""
 //@   ensures[C01] result1 == nil ==> forall k string :: has(result0.cache, k) ==> exists i int :: 0 <= i && i < len(features) && features[i] == result0.cache[k].feature
 //@   callsite (encoding/xml.TokenReader).Token#*
-//@     preserves s.state, s.negotiated, s.in.d, sf, sf.cache, sf.req, sf.total, features
+//@     preserves s.state, s.negotiated, s.in.d, sf, sf.cache, sf.req, sf.total, features, s.features
 //@     assume[C01] typeof(ret0) == xml.StartElement ==> ret0.(xml.StartElement).Name.Local != ""
 //@   callsite nextElementDecoder#*
-//@     preserves s.state, s.negotiated, s.in.d, sf, sf.cache, sf.req, sf.total, features
+//@     preserves s.state, s.negotiated, s.in.d, sf, sf.cache, sf.req, sf.total, features, s.features
 //@   callsite field:StreamFeature.Parse#1
-//@     preserves s.state, s.negotiated, s.in.d, sf, sf.cache, sf.req, sf.total, features
+//@     preserves s.state, s.negotiated, s.in.d, sf, sf.cache, sf.req, sf.total, features, s.features
 //@   callsite mellium.im/xmlstream.Copy#*
-//@     preserves s.state, s.negotiated, s.in.d, sf, sf.cache, sf.req, sf.total, features
+//@     preserves s.state, s.negotiated, s.in.d, sf, sf.cache, sf.req, sf.total, features, s.features
 //@   loop 1
-//@     invariant[C01,C02,C04] unchanged(s.state) && unchanged(s.negotiated) && unchanged(s.in.d) && unchanged(features)
+//@     invariant[C01,C02,C04] unchanged(s.state) && unchanged(s.negotiated) && unchanged(s.in.d) && unchanged(features) && s.features == old(s.features)
 //@     invariant[C01,C04] sf != nil && sf.cache != nil && sf.total >= 0
 //@     invariant[C01] forall k string :: has(sf.cache, k) ==> cached(sf.cache[k], k, s.state) && (sf.cache[k].req ==> sf.req) && sf.total > 0 && sf.cache[k].feature.Name.Local != ""
 //@     invariant[C01] forall k string :: has(sf.cache, k) ==> exists i int :: 0 <= i && i < len(features) && features[i] == sf.cache[k].feature
@@ -395,6 +394,7 @@ package xmpp
 //@     after: lastMask = ret0
 //@     after: okMask = okMask | ite(ret2 == nil, ret0, 0)
 //@   ensures[C01] s.state & old(s.state) == old(s.state)
+//@   ensures[C01,C02,C04] s.negotiated == old(s.negotiated) && s.features == old(s.features)
 //@   ensures[C04] stepErr ==> err != nil
 //@   ensures[C01] err == nil && !server && mask & Ready != 0 && lastMask & Ready == 0 ==> forall k string :: has(list.cache, k) && !has(s.negotiated, k) && negotiable(list.cache[k].feature, s.state) ==> !list.cache[k].req
 //@   ensures[C01] err == nil && server && mask & Ready != 0 && lastMask & Ready == 0 ==> !list.req
@@ -402,7 +402,7 @@ package xmpp
 //@   loop 1
 //@     invariant[C01,C02,C04] list != nil && list.cache != nil
 //@     invariant[C01] s.state & old(s.state) == old(s.state)
-//@     invariant[C01,C02,C04] unchanged(s.in.d)
+//@     invariant[C01,C02,C04] unchanged(s.in.d) && s.negotiated == old(s.negotiated) && s.features == old(s.features)
 //@     invariant[C01] forall k string :: has(list.cache, k) ==> list.cache[k].feature.Name.Space == k && (list.cache[k].req ==> list.req)
 //@     invariant[C01] forall k string :: has(list.cache, k) ==> exists i int :: 0 <= i && i < len(features) && features[i] == list.cache[k].feature
 //@     invariant[C01] !server ==> forall k string :: has(list.cache, k) ==> list.cache[k].feature.Name.Local != ""
@@ -413,3 +413,130 @@ package xmpp
 //@     invariant[C01] forall k string :: visited1(k) && has(list.cache, k) && !has(s.negotiated, k) && negotiable(list.cache[k].feature, s.state) ==> list.cache[k].req && data.feature.Name.Local != ""
 //@     invariant[C01] data.feature.Name.Local != "" ==> data.req
 //@     invariant[C01] data.feature.Name.Local != "" ==> has(list.cache, data.feature.Name.Space) && list.cache[data.feature.Name.Space] == data && !has(s.negotiated, data.feature.Name.Space) && data.feature.Negotiate != nil && prereq(s.state, data.feature)
+
+// sawFeatures: the negotiator state carried between calls says that a
+// features list has already been negotiated on this session.
+//@ spec sawFeatures(d interface{}) bool = typeof(d) == negotiatorState && d.(negotiatorState).sawFeatures
+
+// Contract of negotiators as negotiateSession uses them (assumed for
+// user-supplied negotiators, proved for the default negotiator below).
+//@ functype Negotiator
+//@   requires[C01] !sawFeatures(data) ==> forall k string :: !has(session.negotiated, k)
+//@   ensures[C01] session.state & old(session.state) == old(session.state)
+//@   ensures[C01,C02,C04] session.negotiated == old(session.negotiated) && session.features == old(session.features)
+//@   ensures[C01] !sawFeatures(cache) ==> unchanged(session.negotiated) && !old(sawFeatures(data))
+
+// The default negotiator.
+//@ func negotiator$1
+//@   requires[C01] !sawFeatures(data) ==> forall k string :: !has(s.negotiated, k)
+//@   ghost called bool = false
+//@   ghost sent bool = false
+//@   ghost restart bool = false
+//@   callsite foreign#*
+//@     preserves s.state, s.negotiated, s.features
+//@   callsite mellium.im/xmpp/internal/stream.Expect#*
+//@     preserves s.state, s.negotiated, s.features
+//@   callsite mellium.im/xmpp/internal/stream.Send#*
+//@     preserves s.state, s.negotiated, s.features
+//@     after: sent = true
+//@   callsite newTeeConn#1
+//@     preserves s.state, s.negotiated, s.features
+//@   callsite <dynamic>#1
+//@     preserves s.state, s.negotiated, s.features
+//@     assume[C01,C02] forall i int :: 0 <= i && i < len(ret0.Features) ==> ret0.Features[i].Name.Local != ""
+//@   callsite negotiateFeatures#1
+//@     assert[C01,C02] arg2 == !sawFeatures(data)
+//@     assert[C01] (typeof(data) != negotiatorState || data.(negotiatorState).doRestart) ==> sent
+//@     after: called = true
+//@     after: restart = ret1 != nil
+//@   ensures[C01,C02] called ==> sawFeatures(restartNext)
+//@   ensures[C01,C02] !called ==> sawFeatures(restartNext) == sawFeatures(data)
+//@   ensures[C01] called && err == nil ==> typeof(restartNext) == negotiatorState && restartNext.(negotiatorState).doRestart == restart
+//@   ensures[C01] s.state & old(s.state) == old(s.state)
+//@   ensures[C01,C02,C04] s.negotiated == old(s.negotiated) && s.features == old(s.features)
+//@   ensures[C01] !sawFeatures(restartNext) ==> unchanged(s.negotiated) && !old(sawFeatures(data))
+
+// negotiateSession: the negotiator is called until the ready bit is set; the
+// first negotiator error ends negotiation; state bits are only added; after a
+// restart both caches are empty and reader/writer sit on the new connection.
+//@ func negotiateSession
+//@   maypanic
+//@   ghost negErr bool = false
+//@   ghost lastData interface{}
+//@   ghost first bool = true
+//@   callsite foreign#*
+//@     preserves s.state, s.negotiated, s.features, s
+//@   callsite type:Negotiator#1
+//@     assert[C01] !sawFeatures(arg4) ==> forall k string :: !has(s.negotiated, k)
+//@     assert[C01,C02] first ==> arg4 == nil
+//@     assert[C01,C02] !first ==> arg4 == lastData
+//@     after: negErr = ret3 != nil
+//@     after: lastData = ret2
+//@     after: first = false
+//@   callsite newConn#2
+//@     assert[C02] arg0 == rw && rw != nil
+//@     preserves s.state, s.negotiated, s.features
+//@   callsite encoding/xml.NewDecoder#2
+//@     assert[C02] arg0 == s.conn
+//@   callsite encoding/xml.NewEncoder#2
+//@     assert[C02] arg0 == s.conn
+//@   ensures[C04] negErr ==> result1 != nil
+//@   ensures[C01,C04] result1 == nil ==> result0 != nil && result0.state & Ready != 0
+//@   ensures[C01] result0 != nil ==> result0.state & state == state
+//@   loop 1
+//@     invariant[C01,C04] !negErr && s.state & state == state && s.features != nil && s.negotiated != nil
+//@     invariant[C01,C02] first ==> data == nil
+//@     invariant[C01] !sawFeatures(data) ==> forall k string :: !has(s.negotiated, k)
+//@     invariant[C01,C02] !first ==> data == lastData
+//@     invariant[C01] !first && rw != nil ==> forall k string :: !has(s.negotiated, k)
+//@   loop 2
+//@     invariant[C01,C04] s.state & state == state && s.features != nil && s.negotiated != nil
+//@   loop 3
+//@     invariant[C01,C04] s.state & state == state && s.features != nil && s.negotiated != nil
+//@     invariant[C01] forall k string :: visited2(k) ==> !has(s.negotiated, k)
+
+// STARTTLS (C02, C04): the feature value is stateless (the captured
+// configuration is never written), a default configuration names this
+// session's own domain, the initiator reports Secure only after <proceed/>,
+// a failed write of the request is reported, and the negotiation bookkeeping
+// of the session is left alone (the frame assumed of all features).
+//@ func StartTLS$3
+//@   ghost la jid.JID
+//@   ghost dom jid.JID
+//@   ghost want string
+//@   ghost proceed bool = false
+//@   ghost werr bool = false
+//@   ghost st0 SessionState
+//@   callsite foreign#*
+//@     preserves session.state, session.negotiated, session.features, session.in.d, cfg
+//@   callsite (*Session).TokenReader#1
+//@     preserves session.state, session.negotiated, session.features, session.in.d, cfg
+//@   callsite (*Session).State#1
+//@     after: st0 = ret0
+//@   callsite (*Session).LocalAddr#1
+//@     assert[C02] arg0 == session
+//@     after: la = ret0
+//@   callsite (mellium.im/xmpp/jid.JID).Domain#1
+//@     assert[C02] arg0 == la
+//@     after: dom = ret0
+//@   callsite (mellium.im/xmpp/jid.JID).String#1
+//@     assert[C02] arg0 == dom
+//@     after: want = ret0
+//@   callsite fmt.Fprint#*
+//@     preserves session.state, session.negotiated, session.features, session.in.d, cfg
+//@     after: werr = werr || ret1 != nil
+//@   callsite (*encoding/xml.Decoder).Skip#1
+//@     preserves session.state, session.negotiated, session.features, session.in.d, cfg
+//@     assert[C02] tok.Name.Space == ns.StartTLS && tok.Name.Local == "proceed"
+//@     after: proceed = ret0 == nil
+//@   callsite crypto/tls.Client#1
+//@     assert[C02] arg1 != nil && (old(cfg) == nil ==> arg1.ServerName == want)
+//@     assert[C02] old(cfg) != nil ==> arg1 == old(cfg)
+//@   callsite crypto/tls.Server#1
+//@     assert[C02] arg1 != nil && (old(cfg) == nil ==> arg1.ServerName == want)
+//@   ensures[C02] cfg == old(cfg)
+//@   ensures[C02] result0 & Secure != 0 ==> result2 == nil && result1 != nil
+//@   ensures[C02] result0 != 0 && st0 & Received == 0 ==> proceed
+//@   ensures[C02,C04] result2 != nil ==> result0 == 0 && result1 == nil
+//@   ensures[C04] werr ==> result2 != nil
+//@   ensures[C01,C02,C04] unchanged(session.state) && unchanged(session.negotiated) && unchanged(session.features) && unchanged(session.in.d)
